@@ -6,7 +6,7 @@ CONSTANTS
   MaxChoices = 2
   NPool = 5
   MaxLines = 2
-  NAnswers = 12
+  NAnswers = 11
   Attempts = {0, 1, 2}
   NDefaults = 1
   Inter = {TRUE}
@@ -25,6 +25,7 @@ INVARIANT P_reject
 INVARIANT P_attempts
 INVARIANT P_errors
 INVARIANT P_eof
+INVARIANT P_typed
 INVARIANT P_confirm
 INVARIANT A_prompts
 INVARIANT A_object
